@@ -1878,12 +1878,18 @@ class SequenceOfAndSetOfBase(base.ConstructedAsn1Type):
             When idx > len(self)
         """
         if isinstance(idx, slice):
-            indices = tuple(range(len(self)))
-            startIdx = indices and indices[idx][0] or 0
-            for subIdx, subValue in enumerate(value):
-                self.setComponentByPosition(
-                    startIdx + subIdx, subValue, verifyConstraints,
+            # as for a list: the stretch is replaced by the new
+            # components, whatever follows it moves up or down
+            components = [
+                self.getComponentByPosition(subIdx, noValue, False)
+                for subIdx in range(len(self))]
+            components[idx] = list(value)
+            replacement = self.clone()
+            for subIdx, subValue in enumerate(components):
+                replacement.setComponentByPosition(
+                    subIdx, subValue, verifyConstraints,
                     matchTags, matchConstraints)
+            self._componentValues = components and replacement._componentValues or {}
             return self
 
         if idx < 0:
